@@ -180,3 +180,118 @@ def gen_lp(rng, mmax=6, nmax=6):
     if len(A) > mmax + 1:
         A, b = A[:mmax + 1], b[:mmax + 1]
     return name, c, A, b
+
+
+# ---------------------------------------------------------------------------
+# replay shrinker (DESIGN §2.7): structural, keeps a candidate only if the SAME (function, class) still fails
+# ---------------------------------------------------------------------------
+
+class RecCtx:
+    """stand-in for core.Ctx that only records which (function, class) pairs fail"""
+
+    def __init__(self, tier="quick"):
+        self.failed = []
+        self.cov = {}
+        self.notes = []
+        self.tier = tier
+
+    def fail(self, function, klass, what, replay, no_input=False):
+        self.failed.append((function, klass))
+        return True
+
+    def tdiv(self, function, detail):
+        self.failed.append((function, "r_trace"))
+
+    def count(self, *a, **k):
+        pass
+
+    def case(self, *a, **k):
+        pass
+
+
+def _num_steps(v):
+    """smaller values to try for one coefficient: 0, then ±1, then half-way to 0"""
+    out = []
+    if v != 0:
+        out.append(0)
+        s = 1 if v > 0 else -1
+        if abs(v) > 1:
+            out.append(s)
+            h = int(v / 2)
+            if h not in (0, s, v):
+                out.append(h)
+        if isinstance(v, float) and v != int(v):
+            out.append(int(v))
+    return out
+
+
+def lp_candidates(case, int_key=None):
+    """single-step simplifications of an LP/MILP case: drop a row, drop a column, shrink one number"""
+    import copy
+    c, A, b = case["c"], case["A"], case["b"]
+    m, n = len(A), len(c)
+    if m > 1:
+        for i in range(m):
+            k = copy.deepcopy(case)
+            del k["A"][i]; del k["b"][i]
+            yield f"drop row {i}", k
+    if n > 1:
+        for j in range(n):
+            k = copy.deepcopy(case)
+            del k["c"][j]
+            for r in k["A"]:
+                del r[j]
+            if int_key:
+                k[int_key] = [t - (1 if t > j else 0) for t in k[int_key] if t != j]
+            yield f"drop column {j}", k
+    for j in range(n):
+        for v in _num_steps(c[j]):
+            k = copy.deepcopy(case); k["c"][j] = v
+            yield f"c[{j}] {c[j]}->{v}", k
+    for i in range(m):
+        for v in _num_steps(b[i]):
+            k = copy.deepcopy(case); k["b"][i] = v
+            yield f"b[{i}] {b[i]}->{v}", k
+        for j in range(n):
+            for v in _num_steps(A[i][j]):
+                k = copy.deepcopy(case); k["A"][i][j] = v
+                yield f"A[{i}][{j}] {A[i][j]}->{v}", k
+
+
+def shrink(case, candidates, fails_batch, max_rounds=80, max_seconds=40.0):
+    """Greedy delta debugging: in every round all single-step candidates are evaluated in one batch (implementation
+    in the worker pool, model in one driver call) and the first one on which the same failure still shows is kept."""
+    import time
+    t0 = time.time()
+    history = []
+    for _ in range(max_rounds):
+        if time.time() - t0 > max_seconds:
+            history.append("time budget exhausted")
+            break
+        cands = list(candidates(case))
+        if not cands:
+            break
+        verdicts = fails_batch([k for _, k in cands])
+        hit = next((i for i, v in enumerate(verdicts) if v), None)
+        if hit is None:
+            break
+        history.append(cands[hit][0])
+        case = cands[hit][1]
+    return case, history
+
+
+def write_min(ctx, prop, function, klass, case, history, extra=None):
+    """write the minimised case next to the replays and mention it in the evidence notes"""
+    import hashlib
+    import json
+    import core
+    core.REPLAYS.mkdir(exist_ok=True)
+    body = {"property": prop, "function": function, "class": klass, "case": case, "shrink_history": history,
+            "minimised": True, **(extra or {})}
+    h = hashlib.sha1(json.dumps(body, sort_keys=True, default=str).encode()).hexdigest()[:10]
+    path = core.REPLAYS / f"{prop}_{function}_{h}.min.json"
+    path.write_text(json.dumps(body, indent=1, default=str))
+    msg = f"minimised failing input for {function}:{klass} ({len(history)} shrink steps): {path.relative_to(core.VERIF) if str(path).startswith(str(core.VERIF)) else path}"
+    ctx.notes.append(msg)
+    print("SHRUNK " + msg)
+    return path
